@@ -45,7 +45,7 @@ REAL = ["pox.openflow.libopenflow_01.ofp_match (from_packet, "
         "OFConnection / IO worker / recoco scheduler"]
 STUBBED = ["socket/select/time/pinger (simkit)", "controller peer (scripted)",
            "hosts (frames injected)"]
-EXPECT_PROBES = ["lookup_hit", "lookup_miss", "lookup_tie", "lookup_exact",
+EXPECT_PROBES = ["frame_kind_ip6", "lookup_hit", "lookup_miss", "lookup_tie", "lookup_exact",
                  "frame_lacks_a_field"]
 
 
@@ -60,6 +60,19 @@ def gen_plan(seed, tier):
     frames.append((G.gen_frame(r, rich=True, nhosts=r.pick([2, 4]),
                                trunc=True),
                    r.randint(1, nports)))
+  r8 = Rng(mix(seed, "ip6"))
+  if r8.chance(0.12):
+    # IPv6 traffic: to an OpenFlow 1.0 table a dl_type like any other non-IP
+    # one (no nw_* / tp_* field has its prerequisite met, whatever an entry's
+    # wire form says about them)
+    for i in range(len(frames)):
+      if r8.chance(0.5):
+        old, port = frames[i]
+        frames[i] = ({"kind": "ip6", "src": old["src"], "dst": old["dst"],
+                      "vlan": old.get("vlan"), "paylen": r8.pick([0, 8, 40]),
+                      "pseed": r8.randrange(256), "nh": r8.pick([59, 253]),
+                      "tc": r8.pick([0, 0, 0xb8]), "fl": r8.pick([0, 0x12345]),
+                      "h6": r8.randint(1, 9)}, port)
   rl = Rng(mix(seed, "local"))
   if rl.chance(0.15):
     # some of the traffic comes from the switch's local port
